@@ -38,6 +38,8 @@ type Flags struct {
 	Replay    bool
 	Third     bool
 	PayPlan   bool
+	// Lag: node A's backend may fall behind in its getblockcount answers (event lag(N) / lag(0))
+	Lag bool
 	// PayKinds restricts the outcomes offered by payplan events (nil = all four).
 	PayKinds []world.PayOutcome
 	// InjectKinds replaces the default menu of injected peer messages (cancel, coop_bad, invalid).
@@ -385,6 +387,13 @@ func (x *Exec) Enabled() []mc.Event {
 			}
 		}
 	}
+	if f.Lag {
+		if cur := x.W.HeightLag[IDA+"/"+x.Cfg.Chain]; cur == 0 {
+			out = append(out, ev("lag", "behind", 3, 1), ev("lag", "behind", 70, 1))
+		} else {
+			out = append(out, ev("lag", "caught-up", 0, 0))
+		}
+	}
 	// service faults can also be armed while the node is down (they hit the recovery)
 	for _, m := range f.Faults {
 		base := m
@@ -568,6 +577,15 @@ func (x *Exec) Apply(e mc.Event) {
 			time.Sleep(11 * time.Minute)
 		case "125s":
 			time.Sleep(125 * time.Second)
+		}
+	case "lag":
+		if x.W.HeightLag == nil {
+			x.W.HeightLag = map[string]uint32{}
+		}
+		if e.N == 0 {
+			delete(x.W.HeightLag, IDA+"/"+x.Cfg.Chain)
+		} else {
+			x.W.HeightLag[IDA+"/"+x.Cfg.Chain] = uint32(e.N)
 		}
 	case "payplan":
 		x.W.PayPlan[IDA] = append(x.W.PayPlan[IDA], world.PayOutcome(e.N))
